@@ -31,6 +31,14 @@ Theorem C07_constant_positive_definite : forall (eps c : R) nb (x : list R),
   0 < @quad ROps (@constant_matrix ROps eps c nb) x.
 Proof. exact T_constant_pd. Qed.
 
+(* the hypothesis [nb_ok] marks the boundary: with an in-range but asymmetric neighbour table (pixel 1 lists pixel 0, not
+   conversely) the very same routine returns a matrix that is neither symmetric nor positive semi-definite *)
+Theorem C07_constant_asymmetric_neighbours_refuted :
+  exists (nb : list (list nat)) (x : list R), nb_in_range (length nb) nb = true /\ length x = length nb
+    /\ @mget ROps (@constant_matrix ROps (/100) 1 nb) 1 0 <> @mget ROps (@constant_matrix ROps (/100) 1 nb) 0 1
+    /\ @quad ROps (@constant_matrix ROps (/100) 1 nb) x < 0.
+Proof. exact constant_asymmetric_refuted. Qed.
+
 (* ---------------- ConstantZeroth: the same plus cz^2 |x|^2 ---------------- *)
 Theorem C07_constant_zeroth_quadratic_form : forall (eps c cz : R) nb (x : list R),
   nb_ok nb = true -> length x = length nb ->
@@ -251,6 +259,7 @@ Print Assumptions C07_qf_constant_meaning.
 Print Assumptions C07_constant_size.
 Print Assumptions C07_constant_symmetric.
 Print Assumptions C07_constant_positive_definite.
+Print Assumptions C07_constant_asymmetric_neighbours_refuted.
 Print Assumptions C07_constant_zeroth_quadratic_form.
 Print Assumptions C07_constant_zeroth_size.
 Print Assumptions C07_constant_zeroth_symmetric.
